@@ -41,6 +41,13 @@ class VTypeVal(Value):
         self.name, self.of = name, of
 
 
+class VDict(Value):
+    """dict literal with constant string keys (used to initialise record fields such as self.stats)"""
+
+    def __init__(self, items):
+        self.items = items      # {key: Value}
+
+
 class VAnyOf(Value):
     """env.any_of([...]) condition event"""
 
@@ -487,10 +494,16 @@ class Exec:
         return ("any",)
 
     def e_Dict(self, node, st):
-        # dict literals are only used for bookkeeping records -> opaque (their parts are still evaluated)
+        # dict literals with constant string keys are records; anything else is only bookkeeping -> opaque
         outs = []
+        const_keys = all(isinstance(k, ast.Constant) and isinstance(k.value, str) for k in node.keys)
         for vals, s in self.eval_seq([v for v in node.values], st):
-            outs.append((vals if isinstance(vals, Exc) else VOpaque("dict"), s))
+            if isinstance(vals, Exc):
+                outs.append((vals, s))
+            elif const_keys:
+                outs.append((VDict({k.value: v for k, v in zip(node.keys, vals)}), s))
+            else:
+                outs.append((VOpaque("dict"), s))
         return outs
 
     def e_Lambda(self, node, st):
@@ -1050,6 +1063,14 @@ class Exec:
             return self.list_method(base, name, args, st, node)
         if isinstance(base, VObj):
             return self.ctx.contracts.call_obj(self, base, name, args, kw, st, node)
+        if isinstance(base, VStr) and name in ("upper", "lower") and not args:
+            # strings are only compared: upper()/lower() is an uninterpreted function, exact on the interned constants
+            f = z3.Function("str_" + name, z3.IntSort(), z3.IntSort())
+            s = st.fork()
+            for const in list(V._STR):
+                conv = getattr(const, name)()
+                s.assume(f(z3.IntVal(V.str_const(const))) == z3.IntVal(V.str_const(conv)))
+            return [(VStr(f(base.t)), s)]
         if isinstance(base, RecRef) and name == "get" and len(args) == 2 and isinstance(args[0], VStr):
             keys = self.rec_keys(base, st)
             r = args[1]
